@@ -191,6 +191,35 @@ pub fn c12_timelock_rules() {
     cover!(and.contains_combination && !or.contains_combination, "and conflicts where or does not");
 }
 
+/// Nesting depth bookkeeping of every combinator (the figure the depth limit of `validate` and of
+/// the parsers is applied to): one more than the deepest child, for arbitrary child figures.
+#[cfg_attr(kani, kani::proof)]
+pub fn c12_tree_height_rules() {
+    let (a, b, c) = (any_ext(), any_ext(), any_ext());
+    let m2 = if a.tree_height > b.tree_height { a.tree_height } else { b.tree_height };
+    let m3 = if m2 > c.tree_height { m2 } else { c.tree_height };
+    chk!(ExtData::and_b(a, b).tree_height == m2 + 1 && ExtData::and_v(a, b).tree_height == m2 + 1, "and_b / and_v: depth is one more than the deeper child");
+    chk!(ExtData::or_b(a, b).tree_height == m2 + 1 && ExtData::or_c(a, b).tree_height == m2 + 1 && ExtData::or_d(a, b).tree_height == m2 + 1 && ExtData::or_i(a, b).tree_height == m2 + 1, "or_b / or_c / or_d / or_i: depth is one more than the deeper child");
+    chk!(ExtData::and_or(a, b, c).tree_height == m3 + 1, "andor: depth is one more than the deepest child");
+    chk!(
+        ExtData::cast_alt(a).tree_height == a.tree_height + 1
+            && ExtData::cast_swap(a).tree_height == a.tree_height + 1
+            && ExtData::cast_check(a).tree_height == a.tree_height + 1
+            && ExtData::cast_dupif(a).tree_height == a.tree_height + 1
+            && ExtData::cast_verify(a).tree_height == a.tree_height + 1
+            && ExtData::cast_nonzero(a).tree_height == a.tree_height + 1
+            && ExtData::cast_zeronotequal(a).tree_height == a.tree_height + 1,
+        "wrappers: depth is one more than the child",
+    );
+    let xs = [a, b, c];
+    let k = sym::usize_();
+    sym::assume(k >= 1 && k <= 3);
+    chk!(ExtData::threshold(k, 3, |i| xs[i]).tree_height == m3 + 1, "thresh: depth is one more than the deepest child");
+    chk!(ExtData::TRUE.tree_height == 0 && ExtData::FALSE.tree_height == 0, "leaves have depth 0");
+    cover!(a.tree_height > b.tree_height, "left child deeper");
+    cover!(a.tree_height < b.tree_height, "right child deeper");
+}
+
 // ---- who accepts what (generated cases; library parsers / constructors ran natively) -------
 
 use crate::shape::{Shape, World, MAXW, W_STACK};
@@ -206,6 +235,8 @@ pub struct Acc {
     pub limits: &'static [(u8, u32, bool, u32)],
     pub dup_expected: bool,
     pub dup_rejected: bool,
+    /// Bare context: the term is NOT one of the standard bare forms (pk, pkh, multisig of <= 3 keys)
+    pub bare_nonstandard: bool,
 }
 
 #[cfg(not(kani))]
@@ -225,6 +256,19 @@ pub fn acc(a: &Acc) {
             chk!(is_b, "a parser or constructor accepts a top-level expression that is not of type B");
         }
         i += 1;
+    }
+    // (1b) bare descriptors only wrap the standard bare forms
+    if sh.ctx == vm::BARE && a.bare_nonstandard {
+        let mut i = 0;
+        while i < a.entries.len() {
+            let n = a.entries[i].0.as_bytes();
+            // "Bare::new", "Descriptor::new_bare", "Descriptor::from_str(bare)"
+            let wrapper = n.len() >= 4 && (n[0] == b'B' || (n.len() > 16 && n[12] == b'n' && n[16] == b'b') || (n.len() > 21 && n[21] == b'b'));
+            if wrapper && a.entries[i].1 {
+                chk!(false, "a bare descriptor wrapper accepts a script that is not a standard bare form (pk, pkh, multisig of at most 3 keys)");
+            }
+            i += 1;
+        }
     }
     // (2) what the descriptor parser accepts, the miniscript parser with consensus parameters accepts
     if a.desc_parser_ok && !a.ms_consensus_parser_ok {
